@@ -37,8 +37,14 @@ C2LEAN_FNS = ["m_get_high_bit", "m_get_mode", "m_get_reserved", "m_get_resolutio
               "m_reserved_mask_negative", "m_h3_init", "isValidCell", "_zeroIndexDigits",
               # loops with a bounded trip count, unrolled by the translator (the `_defined` companions prove that the
               # unrolling suffices for every input)
-              "_h3LeadingNonZeroDigit", "_rotate60ccw", "_rotate60cw", "_h3Rotate60ccw", "_h3Rotate60cw"]
-C2LEAN_UNROLL = {"_h3LeadingNonZeroDigit": 16, "_h3Rotate60ccw": 16, "_h3Rotate60cw": 16}
+              "_h3LeadingNonZeroDigit", "_rotate60ccw", "_rotate60cw", "_h3Rotate60ccw", "_h3Rotate60cw",
+              # scalar out parameters (extra results `<fn>_out_<param>`), conditionals inside loops, a column of the
+              # file-scope table baseCellData, while loops
+              "cellToParent", "cellToCenterChild", "isPentagon", "_h3RotatePent60ccw", "_h3RotatePent60cw",
+              "cellToChildrenSize", "makeDirectChild", "setH3Index"]
+C2LEAN_UNROLL = {"_h3LeadingNonZeroDigit": 16, "_h3Rotate60ccw": 16, "_h3Rotate60cw": 16, "cellToParent": 16,
+                 "_h3RotatePent60ccw": 16, "_h3RotatePent60cw": 16, "_ipow": 6, "setH3Index": 16}
+C2LEAN_FILES = ["h3Index.c", "coordijk.c", "baseCells.c", "mathExtensions.c"]
 
 
 def log(*a):
@@ -97,8 +103,9 @@ def regenerate(prep):
     tmp = os.path.join(BUILD, "BitFns.lean.tmp")
     cmd = [sys.executable, os.path.join(VERIF, "tools", "c2lean.py"), "--out", tmp,
            "--file", os.path.join(H, "macros_tu.c"),
-           "--file", os.path.join(h3build.LIBSRC, "h3Index.c"),
-           "--file", os.path.join(h3build.LIBSRC, "coordijk.c")]
+           ]
+    for f in C2LEAN_FILES:
+        cmd += ["--file", os.path.join(h3build.LIBSRC, f)]
     for f in C2LEAN_FNS:
         cmd += ["--fn", f]
     for f, n_ in C2LEAN_UNROLL.items():
